@@ -297,4 +297,51 @@ theorem writeKeyFileWith_err (c : CopyCode) (e : WkfEnv) (he : e.Distinct) (f : 
       · simp only [h5, if_true]; exact hfile
       · simp [h5] at h
 
+/-! ## the call-level rotation on a storage without hard links -/
+
+theorem copyOutcome_ok (c : CopyCode) (hk : c.copyKept = true) (len : Nat) (limit : Option Nat)
+    (h : (copyOutcome c len limit).2 = .ok) : (copyOutcome c len limit).1 = .all := by
+  unfold copyOutcome at h ⊢
+  simp only at h ⊢
+  obtain ⟨s, hs, _, he⟩ := copyWith_ok c hk _ _ "src" "dst" h
+  rw [he]
+  simp at hs
+  simp [arrived, hs]
+
+/-- **A rotation on a storage without hard links that reports success kept the previous key**: the complete
+previous content is in the history and the new generation is current – whatever limit the history copy hit. -/
+theorem V1.genNoLink_ok (c : CopyCode) (hk : c.copyKept = true) (st : V1) (s : Slot) (len : Nat) (limit : Option Nat)
+    (c0 : Content) (hc0 : st.fs.cur (privFile s) = some c0)
+    (h : (V1.genNoLink c st s len limit).2.2 = .ok) :
+    (V1.genNoLink c st s len limit).1.fs.cur (privFile s) = some (.full (st.count s + 1)) ∧
+    ∃ t, (t, c0) ∈ (V1.genNoLink c st s len limit).1.fs.old (privFile s) := by
+  unfold V1.genNoLink at h ⊢
+  simp only [hc0] at h ⊢
+  cases hr : (copyOutcome c len limit).2 with
+  | err =>
+    generalize copyOutcome c len limit = co at h hr
+    obtain ⟨a, r⟩ := co
+    simp at hr; subst hr; simp at h
+  | ok =>
+    have ha := copyOutcome_ok c hk len limit hr
+    generalize copyOutcome c len limit = co at h hr ha ⊢
+    obtain ⟨a, r⟩ := co
+    simp at hr ha; subst hr; subst ha
+    simp [Arrived.content, applyAll, applyCall, FS.tmpContent]
+
+/-- a rotation on such a storage that reports an error left the current key file alone -/
+theorem V1.genNoLink_err (c : CopyCode) (st : V1) (s : Slot) (len : Nat) (limit : Option Nat)
+    (c0 : Content) (hc0 : st.fs.cur (privFile s) = some c0)
+    (h : (V1.genNoLink c st s len limit).2.2 = .err) :
+    (V1.genNoLink c st s len limit).1.fs.cur (privFile s) = some c0 := by
+  unfold V1.genNoLink at h ⊢
+  simp only [hc0] at h ⊢
+  generalize copyOutcome c len limit = co at h ⊢
+  obtain ⟨a, r⟩ := co
+  cases r with
+  | err =>
+    cases hac : a.content c0 <;> simp [hac, applyAll, applyCall, hc0]
+  | ok =>
+    cases hac : a.content c0 <;> simp [hac, applyAll, applyCall, FS.tmpContent] at h
+
 end AcraModel.Keystore.Sys
